@@ -32,6 +32,12 @@ CHECKS = {
  "C13": dict(cat="exploration", ref="4/C13", tech="model-based property testing over generated mixes of calling styles plus name fuzzing over dir(machine) with a before/after snapshot oracle",
    text="Every step of a generated history is triggered through a drawn style (send, event method, item of events, item of allowed_events, trigger bound with bind_events_to, MachineMixin bound methods); all must give the reference interpreter's outcome; allowed_events/events are compared with the interpreter's lists after every step (once each, declaration order). Every attribute name of the machine and generated text is sent as an event name: TransitionNotAllowed/None and a byte-identical observable snapshot are required.",
    note="Trusted: reference interpreter. MachineMixin needs django settings configured by the harness; the style is skipped (and counted) if django is missing."),
+ "C12": dict(cat="exploration", ref="4/C12", tech="model-based property testing over generated distributions of callback names on machine/model/constructor/late listeners with attach, re-attach and sibling-instance operations",
+   text="Callback names (convention, explicit names, validators, guards) are distributed over machine, model, constructor listeners and late listeners (also two listeners of one class, value-equal listener objects, coroutine methods); histories interleave events with add_listener of new and already attached objects and with a sibling instance that has its own listeners. The reference interpreter, given the current provider set, fixes which callbacks run in which phase with which arguments (exactly once each) and that guards are a conjunction over providers; recorders of different instances must never receive each other's records.",
+   note="Trusted: reference interpreter. Names used in unless and coroutine guards have a single provider. Evaluation counts of guards are not asserted."),
+ "C17": dict(cat="exploration", ref="4/C17", tech="model-based property testing with forked reference interpreter: generated histories containing deepcopy/pickle clone operations followed by diverging suffixes; aliasing checks",
+   text="At generated points of generated histories (also before a coroutine machine is activated) the machine is deep-copied or pickled and unpickled; the reference interpreter is forked and original and clones receive different suffixes. Each must follow its own fork in states, results, exceptions and complete callback logs (so model, listeners and options were carried over), and models, listeners, recorders and a custom mutable attribute must be equal but unshared.",
+   note="Trusted: reference interpreter; generated classes are registered as module attributes so pickle can import them."),
 }
 def main():
     checks = []
